@@ -1,5 +1,6 @@
 import Gmx.Model.Num
 import Gmx.Driver.Util
+-- ENGINE num numEngine stateless
 /-! driver engine `num` — C01 -/
 namespace Gmx.Drv
 open Gmx
